@@ -1115,7 +1115,7 @@ class Tensor(object):
             s = tn.accepted_inputs(key)[0]
             slicing = []
             for n in range(len(self.shape)):
-                idx = self.idxs[n].long()
+                idx = self.idxs[n].long().clone()  # .long() of a long tensor is the tensor itself
                 idx[idx > 1] = 1
                 idx = torch.where(idx == s[n])[0]
                 sl = slice(idx[0], idx[-1] + 1)
